@@ -139,6 +139,72 @@ def oracle_history(ctx: Ctx, h, iouts):
             check_picture(ctx, h, k, out, rects, "reopened" if op[0] == "RO" else "open", edited)
 
 
+def fixture_merge_oracle(ctx: Ctx):
+    """Documents written by Numbers that already contain merged ranges: merging one more rectangle must show the
+    old and the new ranges, on the open document and after save + reopen."""
+    from numbers_parser import Document
+    from numbers_parser.xrefs import xl_cell_to_rowcol, xl_range
+    data = common.REPO / "tests" / "data"
+    names = ["test-9.numbers", "test-4.numbers", "issue-77.numbers", "test-titles.numbers", "issue-59.numbers"] if ctx.quick else sorted(p.name for p in data.glob("*.numbers"))
+    done = 0
+    for name in names:
+        p = data / name
+        if not p.exists():
+            continue
+        # only documents of a supported version (the library warns about the others; one of them, issue-18, cannot be
+        # saved at all, merged or not - that is outside this property)
+        from .c02 import open_doc
+        doc, _why = open_doc(p)
+        if doc is None:
+            continue
+        try:
+            tables = [(si, ti, t) for si, sh in enumerate(doc.sheets) for ti, t in enumerate(sh.tables)]
+        except Exception:  # noqa: BLE001
+            continue
+        for si, ti, t in tables:
+            try:
+                old = list(t.merge_ranges)
+            except Exception:  # noqa: BLE001
+                continue
+            if not old or t.num_rows < 2 or t.num_cols < 2:
+                continue
+            used = set()
+            for rg in old:
+                a, b = rg.split(":") if ":" in rg else (rg, rg)
+                (r0, c0), (r1, c1) = xl_cell_to_rowcol(a), xl_cell_to_rowcol(b)
+                used |= {(r, c) for r in range(r0, r1 + 1) for c in range(c0, c1 + 1)}
+            spot = next(((r, c) for r in range(t.num_rows - 1) for c in range(t.num_cols - 1)
+                         if not ({(r, c), (r + 1, c), (r, c + 1), (r + 1, c + 1)} & used)), None)
+            if spot is None:
+                continue
+            new = xl_range(spot[0], spot[1], spot[0] + 1, spot[1] + 1)
+            case = {"fixture": name, "sheet": si, "table": ti, "merge": new}
+            ctx.count("oracle-fixture-merge")
+            ctx.nontrivial(("fixture-merge", name, si, ti))
+            try:
+                t.merge_cells(new)
+                want = sorted(old + [new])
+                if sorted(t.merge_ranges) != want:
+                    ctx.oracle_fail("fixture-merge:open", case, f"{name}: merge_ranges {sorted(t.merge_ranges)} != {want}")
+                out = ctx.tmp / f"fm_{done}.numbers"
+                doc.save(out)
+                t2 = Document(out).sheets[si].tables[ti]
+                got = sorted(t2.merge_ranges)
+                if got != want:
+                    ctx.oracle_fail("fixture-merge:reopened", case, f"{name}: after save and reopen merge_ranges {got} != {want}")
+                else:
+                    r, c = spot
+                    kinds = [type(t2.cell(r + dr, c + dc)).__name__ for dr in (0, 1) for dc in (0, 1)]
+                    if kinds[1:] != ["MergedCell"] * 3 or not t2.cell(r, c).is_merged:
+                        ctx.oracle_fail("fixture-merge:reopened", case, f"{name}: cells of {new} after reopen are {kinds}")
+                out.unlink(missing_ok=True)
+            except Exception as e:  # noqa: BLE001
+                ctx.oracle_fail("fixture-merge:raises", case, f"{name}: {type(e).__name__}: {e}")
+            done += 1
+            break   # one table per document is enough; the document has been modified
+    ctx.dist("fixture_documents_with_merges", done)
+
+
 def disjoint_rects(rng, nr, nc, k):
     rects = []
     for _ in range(30):
@@ -243,6 +309,7 @@ def run(ctx: Ctx) -> int:
             res = [(h, None, gridlib.run_impl(ctx.tmp, f"{name}{i}", h)) for i, h in enumerate(hs)]
         for h, _, iouts in res:
             oracle_history(ctx, h, iouts)
+    fixture_merge_oracle(ctx)
     if not ctx.quick:
         # the 16-bit packing of the merge map: an anchor at row 65536
         h = [("N", 2, 2), ("W", 0, 65540, 1, 5), ("M", 0, 65536, 0, 65537, 1), ("RO", 0)]
